@@ -28,20 +28,26 @@ if not ok:
     broken.append(("forbidden-vernacular", out))
 
 # ------------------------------------------------------------------ 1. translator + theorems
-ok, out = ck.genmodel()
-if not ok:
-    broken.append(("genmodel", out[-3000:]))
-ok, out = ck.coq_make(["Model/C03_Registry.vo", "Proofs/C03.vo", "Examples/C03.vo"])
-model_ok = True
-if not ok:
-    broken.append(("coq-make", out[-3000:]))
-    ok2, out2 = ck.coq_make(["Model/C03_Registry.vo"])
-    model_ok = ok2
-ok, out = ck.coq_props()
-props_ok = ok
-if not ok:
-    broken.append(("Props/C03.v", out[-3000:]))
-ck.log("theorems %s" % ("ok" if props_ok else "BROKEN"))
+# (runs in a thread, overlapped with the Go builds and the corpus runs below; joined before the tables are evaluated)
+def coq_part():
+    res = {"broken": [], "model_ok": True, "props_ok": False}
+    ok, out = ck.genmodel()
+    if not ok:
+        res["broken"].append(("genmodel", out[-3000:]))
+    ok, out = ck.coq_make(["Model/C03_Registry.vo", "Proofs/C03.vo", "Examples/C03.vo"])
+    if not ok:
+        res["broken"].append(("coq-make", out[-3000:]))
+        ok2, out2 = ck.coq_make(["Model/C03_Registry.vo"])
+        res["model_ok"] = ok2
+    ok, out = ck.coq_props()
+    res["props_ok"] = ok
+    if not ok:
+        res["broken"].append(("Props/C03.v", out[-3000:]))
+    ck.log("theorems %s" % ("ok" if ok else "BROKEN"))
+    return res
+from concurrent.futures import ThreadPoolExecutor
+_pool = ThreadPoolExecutor(max_workers=1)
+coq_future = _pool.submit(coq_part)
 
 # ------------------------------------------------------------------ 2. binaries from the working tree
 exe, out = ck.go_build("./cmd/hc03")
@@ -251,7 +257,7 @@ import random
 prng = random.Random(ck.seed)      # sampling of the testdata corpus only; the programs themselves come from hx.NewRand(seed)
 if not ck.thorough():
     prng.shuffle(cands)
-    cands = cands[:30]
+    cands = cands[:24]
 names = {}
 for d in cands:
     rel = os.path.relpath(d, REPO).split(os.sep)
@@ -420,6 +426,9 @@ Definition NR := Eval vm_compute in (List.length registry, List.length explored_
 Print R. Print U. Print UM. Print BM. Print DM. Print NC. Print BU. Print NR.
 """ % (univ_v, cl(univ["Builtins"]), obs_v)
 vals = {}
+cres = coq_future.result()
+broken = cres["broken"] + broken
+model_ok, props_ok = cres["model_ok"], cres["props_ok"]
 if model_ok:
     rc, out = ck.coq_cases("tables", text)
     for n in ("R", "U", "UM", "BM", "DM", "NC", "BU", "NR"):
